@@ -198,7 +198,7 @@ GStep ==
   \/ \E r \in repos : GDeleteRepo(r)
   \/ \E r \in repos : \E new \in {R(Repos)} : GRenameRepo(r, new)
   \/ \E r \in repos : \E ps \in {RandSubset({q \in Paths : ~q.gen})} : GDeleteEntries(r, ps)
-  \/ \E r \in repos : \E n \in {R(1..3)} : \E m \in {R({"none", "tags", "semver"})} : GSquash(r, n, m)
+  \/ \E r \in repos : \E n \in {R(1..3)} : \E m \in {R({"none", "tags", "semver", "both"})} : GSquash(r, n, m)
   \/ "diff" \in Ops /\ \E a \in {R(Ids \cup {0})}, b \in {R(Ids \cup {0})} : GDiff(a, b)
   \/ "update" \in Ops /\ \E i \in 1..2 : \E a \in {R(Ids \cup {0})}, b \in {R(Ids \cup {0})} : GUpdate(a, b)
   \/ "download" \in Ops /\ \E b \in {R(Ids \cup {0})} : \E sel \in {RandSubset(Paths)} : GDownload(b, sel)
@@ -217,7 +217,7 @@ ScriptStep ==
     [] pos \in 4..7 -> /\ \/ \E b \in VisibleIn("r1") : GSetLabel("r1", LabelSeq[pos - 3], b)
                           \/ UNCHANGED <<mvars, hist>>
                        /\ pos' = pos + 1
-    [] pos = 8 -> /\ \E n \in 1..3, m \in {"none", "tags", "semver"} : GSquash("r1", n, m)
+    [] pos = 8 -> /\ \E n \in 1..3, m \in {"none", "tags", "semver", "both"} : GSquash("r1", n, m)
                   /\ pos' = 9
     [] OTHER -> FALSE
 
